@@ -437,6 +437,12 @@ def scen_c04(rnd, n_values, n_proofs):
         s = {"k": "rnd", "s": 900 + k}
         sc.append({"c": "reg", "i": idx, "s": s, "lim": I(7)})
         sc.append(prove_op(f"t{k}", "tree", s, idx, I(7), I(6), {"k": "pm", "v": 1}, {"len": 9, "seed": k}, c04=True))
+        # the same entry point with a witness whose commitment is NOT the leaf at that position (other limit, other secret,
+        # empty position): the circuit accepts it, and the published root must still be the fold of THAT commitment
+        if k < 2:
+            sc.append(prove_op(f"t{k}l", "tree", s, idx, I(9), I(6), {"k": "pm", "v": 1}, {"len": 9, "seed": k}, c04=True))
+            sc.append(prove_op(f"t{k}s", "tree", {"k": "rnd", "s": 950 + k}, idx, I(7), I(6), {"k": "pm", "v": 1}, {"len": 9, "seed": k}, c04=True))
+            sc.append(prove_op(f"t{k}e", "tree", s, idx + 2, I(7), I(6), {"k": "pm", "v": 1}, {"len": 9, "seed": k}, c04=True))
     return sc
 
 
